@@ -124,6 +124,10 @@ def run(ctx):
                        'root, or reached by walking the tree) is still in effect when the order of the set is relied upon (the set\'s lock is '
                        'released, the tree is searched, another node is inserted, the function returns) without the node having been deleted or filed anew', floor=3)
     ctx.section(key_final)
+    ctx.rule('R-C11i', 'statuses still due to the interest being handled survive the unregistration of another interest from its handler: '
+                       'the unregister call overwrites the per-thread handled-interest marker only on paths where the marker was tested '
+                       'equal to the interest being unregistered (the delivery loop stops when it finds the marker cleared)', floor=1)
+    ctx.section(marker_own)
 
 
 # --------------------------------------------------------------------------
@@ -691,6 +695,12 @@ def delivery(ctx):
         raise AnalysisBroken('; '.join(broken))
     if n < 2:
         raise AnalysisBroken('wait delivery marker rules not found')
+
+
+def marker_own(ctx):
+    from . import c01
+    if not c01.marker_own(ctx, 'R-C11i', {h.REC}):
+        raise AnalysisBroken('no store into the handled-interest marker found in the unregister call')
 
 
 # --------------------------------------------------------------------------
